@@ -325,6 +325,26 @@ class Check(PropCheck):
             c = AC.make_copy(fresh(), how)
             if list(c.classList) != L or c.className != joined or c.hasAttribute('class') != present:
                 return ('copy', '%s: classList %r but the %s has %r / %r' % (where, L, how, list(c.classList), c.getStartTag()))
+        # a copy and its source are two elements: in-place class edits on one are not seen through the other (also along a
+        # chain source -> copy -> copy of the copy, and for the element re-parsed from the start tag)
+        for how in (() if odd else AC_COPIES + ('reparse',)):
+            a = fresh()
+            b = AC.reparse(a) if how == 'reparse' else AC.make_copy(a, how)
+            c = AC.make_copy(b, 'clone')
+            b.addClass('zzcopy')
+            if L:
+                b.removeClass(L[0])
+            if list(a.classList) != L or a.className != joined or list(c.classList) != L:
+                return ('aliased', '%s: addClass/removeClass on the %s changed the source or a clone of the copy: %r / %r'
+                        % (where, how, list(a.classList), list(c.classList)))
+            a.addClass('zzsrc')
+            t = fresh()                 # the same two edits on an element nobody else holds
+            t.addClass('zzcopy')
+            if L:
+                t.removeClass(L[0])
+            want_b = list(t.classList)
+            if list(b.classList) != want_b or b.hasClass('zzsrc'):
+                return ('aliased', '%s: addClass on the source changed its %s: %r (expected %r)' % (where, how, list(b.classList), want_b))
         # classList is a copy
         e = fresh()
         cl = e.classList
